@@ -78,7 +78,7 @@ def strat_mdft(tier):
     nmax = {'quick': 12, 'thorough': 32}[tier]
     ax = U.axis_len(nmax)
     return st.fixed_dictionaries({'shape': st.tuples(ax, ax).map(list), 'out': st.one_of(st.tuples(ax, ax).map(list), ax),
-                                  'Q': _Q(), 'shift': _shift(), 'fwd': st.booleans(), 'seed': U.seeds})
+                                  'Q': _Q(), 'shift': _shift(), 'fwd': st.booleans(), 'layout': U.layouts, 'seed': U.seeds})
 
 
 def check_mdft(case, ctx):
@@ -87,8 +87,8 @@ def check_mdft(case, ctx):
     _reset()
     shape, out, Q, shift, fwd = tuple(case['shape']), U.tup(case['out']), U.tup(case['Q']), tuple(case['shift']), case['fwd']
     outp = U.as_pair(out)
-    x = U.field(case['seed'], shape, 'complex', 1)
-    y = U.field(case['seed'], outp, 'complex', 2)
+    x = U.relayout(U.field(case['seed'], shape, 'complex', 1), case.get('layout', 'C'))
+    y = U.relayout(U.field(case['seed'], outp, 'complex', 2), case.get('layout', 'C'))
     shifted = any(s != 0 for s in shift)
     ctx.nt(shape[0] != shape[1] or shifted or outp != shape)
     ctx.label('fwd' if fwd else 'inv', 'shifted' if shifted else 'unshifted', 'square' if shape[0] == shape[1] else 'nonsquare')
